@@ -14,6 +14,7 @@ package verifharness
 
 import (
 	"context"
+	"encoding/binary"
 	"errors"
 	"fmt"
 	"hash/crc64"
@@ -27,6 +28,7 @@ import (
 	"sync"
 	"sync/atomic"
 	"testing/synctest"
+	"time"
 
 	goat "github.com/avos-io/goat"
 	"github.com/avos-io/goat/gen/goatorepo"
@@ -260,6 +262,11 @@ type syCop struct {
 	Pay  []byte // invoke / send
 	Park bool   // recv / send: park at the yield point after the done-check
 	M    int    // invoke: unary method number (0..5); open: variant (service / method of the kind)
+	// invoke: a plain call carries no metadata and no deadline (its handler is linked to it by the payload);
+	// Dead: the caller's context is already cancelled (1) / already expired (2) when it calls - the call
+	// must fail and must not disturb anybody else (only on a transport whose Write tests its context first)
+	Plain bool
+	Dead  int
 }
 
 func (c syCop) String() string {
@@ -267,6 +274,12 @@ func (c syCop) String() string {
 	switch c.Op {
 	case "invoke":
 		s += fmt.Sprintf("(%dB)", len(c.Pay))
+		if c.Plain {
+			s += "p"
+		}
+		if c.Dead != 0 {
+			s += fmt.Sprintf("dead%d", c.Dead)
+		}
 	case "open":
 		s += fmt.Sprintf("(%d,%s)", c.Slot, syKinds[c.Kind])
 	case "send":
@@ -400,7 +413,10 @@ func syTag(ctx context.Context, key string) int64 {
 	return n
 }
 
-func newSyRig(topo int, byRef, lock bool) *syRig {
+func newSyRig(topo int, byRef, lock bool) *syRig { return newSyRigOpt(topo, byRef, lock, false) }
+
+// checkCtx: the client's transport tests the context of a Write first (as the pipe / demux style transports do)
+func newSyRigOpt(topo int, byRef, lock, checkCtx bool) *syRig {
 	r := &syRig{hist: &syHist{}, lock: lock, topo: topo, ugates: map[int64]*syGate{}, sgates: map[int64]*syGate{},
 		hprogs: map[int64]syHProg{}, streams: map[int]grpc.ClientStream{}, armed: map[string]*syThread{}}
 	r.ctx, r.cancel = context.WithCancel(context.Background())
@@ -410,6 +426,7 @@ func newSyRig(topo int, byRef, lock bool) *syRig {
 	}
 	l := NewLink(byRef)
 	l.Auto = !lock
+	l.C.CheckCtx = checkCtx
 	r.link = l
 	r.eps = append(r.eps, l.C, l.S)
 	// the tap on the client's transport
@@ -460,8 +477,9 @@ func (r *syRig) close() {
 		close(g.ch)
 	}
 	r.lock = false
+	ths := append([]*syThread(nil), r.threads...)
 	r.mu.Unlock()
-	for _, th := range r.threads {
+	for _, th := range ths {
 		close(th.yield)
 		close(th.step)
 	}
@@ -520,6 +538,9 @@ func (r *syRig) gate(m map[int64]*syGate, tag int64) {
 
 func (r *syRig) unaryH(ctx context.Context, mi int, req []byte) ([]byte, bool, error) {
 	c := syTag(ctx, "sy-c")
+	if c < 0 && len(req) >= 9 && req[0] == syPlainMark {
+		c = int64(binary.BigEndian.Uint64(req[1:9])) // a plain call: linked by its payload
+	}
 	r.hist.add(fmt.Sprintf("HUnS %s %s", coqZ(c), syTM(mi, req)))
 	r.gate(r.ugates, c)
 	rep := syMixM(mi, req)
@@ -625,6 +646,41 @@ func (r *syRig) invoke(ctx context.Context, c int64, mi int, req []byte, in, out
 	return err
 }
 
+const syPlainMark = 0xA5
+
+// invokePlain: the call carries neither metadata nor a deadline; the payload starts with the call's number
+func (r *syRig) invokePlain(ctx context.Context, c int64, mi int, req []byte, in, out *wrapperspb.BytesValue) error {
+	p := make([]byte, 9, 9+len(req))
+	p[0] = syPlainMark
+	binary.BigEndian.PutUint64(p[1:9], uint64(c))
+	req = append(p, req...)
+	in.Value = req
+	r.hist.add(fmt.Sprintf("CInvS %d %s %s", c, syTM(mi, req), syT(syMixM(mi, req))))
+	err := r.cc.Invoke(ctx, syUnaryPath(mi), in, out)
+	r.hist.add(fmt.Sprintf("CInvR %d %s", c, syRes(err, out.Value)))
+	return err
+}
+
+// invokeDead: a caller whose context has already ended. Its call must fail; nothing is recorded unless it
+// does not (a result of a call that never started is a failing input), and its handler - if one ever ran -
+// would be the handler of no call.
+func (r *syRig) invokeDead(n int64, how, mi int, req []byte) {
+	var ctx context.Context
+	var cancel context.CancelFunc
+	if how == 2 {
+		ctx, cancel = context.WithDeadline(r.ctx, time.Now().Add(-time.Second))
+	} else {
+		ctx, cancel = context.WithCancel(r.ctx)
+		cancel()
+	}
+	defer cancel()
+	ctx = metadata.AppendToOutgoingContext(ctx, "sy-c", strconv.FormatInt(800000+n, 10))
+	var out wrapperspb.BytesValue
+	if err := r.cc.Invoke(ctx, syUnaryPath(mi), &wrapperspb.BytesValue{Value: req}, &out); err == nil {
+		r.hist.add(fmt.Sprintf("CInvR %d %s", 800000+n, syRes(err, out.Value)))
+	}
+}
+
 // a reply object as a caller may hand it in: already holding something
 func syUsedReply() *wrapperspb.BytesValue {
 	return &wrapperspb.BytesValue{Value: []byte("stale reply of an earlier call")}
@@ -699,9 +755,28 @@ func (r *syRig) exec(th *syThread) {
 		if th.out == nil {
 			th.in, th.out = &wrapperspb.BytesValue{}, syUsedReply()
 		}
-		r.invoke(r.ctx, c, op.M%syNUnary, op.Pay, th.in, th.out)
+		switch {
+		case op.Dead != 0:
+			r.invokeDead(c, op.Dead, op.M%syNUnary, op.Pay)
+		case op.Plain:
+			r.invokePlain(r.ctx, c, op.M%syNUnary, op.Pay, th.in, th.out)
+		default:
+			r.invoke(r.ctx, c, op.M%syNUnary, op.Pay, th.in, th.out)
+		}
 	case "open":
 		th.pc++
+		r.mu.Lock()
+		locked := r.lock
+		r.mu.Unlock()
+		if op.Park && locked {
+			// (lock-step only) the stream's own goroutine parks at its first cs.loop.read (before it reads anything); the handle is a
+			// thread without a program, released by its own R action
+			lt := &syThread{step: make(chan struct{}), yield: make(chan struct{})}
+			r.mu.Lock()
+			r.threads = append(r.threads, lt)
+			r.mu.Unlock()
+			r.arm("cs.loop.read", lt)
+		}
 		cs, err := r.openM(r.ctx, int64(op.Slot), op.Kind, op.M)
 		if err == nil {
 			r.mu.Lock()
@@ -750,7 +825,10 @@ func (r *syRig) disarm(pt string, th *syThread) {
 // enabled lists the schedule actions enabled in the current (quiescent) state, in canonical order.
 func (r *syRig) enabled() []syAct {
 	var out []syAct
-	for t, th := range r.threads {
+	r.mu.Lock()
+	ths := append([]*syThread(nil), r.threads...)
+	r.mu.Unlock()
+	for t, th := range ths {
 		if th.busy.Load() || th.pc >= len(th.prog) {
 			continue
 		}
@@ -760,7 +838,7 @@ func (r *syRig) enabled() []syAct {
 		}
 		out = append(out, syAct{'U', int64(t)})
 	}
-	for t, th := range r.threads {
+	for t, th := range ths {
 		if th.atY.Load() {
 			out = append(out, syAct{'R', int64(t)})
 		}
@@ -803,7 +881,9 @@ func (r *syRig) do(a syAct) {
 		th.busy.Store(true)
 		th.step <- struct{}{}
 	case 'R':
+		r.mu.Lock()
 		th := r.threads[a.N]
+		r.mu.Unlock()
 		th.atY.Store(false)
 		th.yield <- struct{}{}
 	case 'H':
